@@ -24,6 +24,7 @@ type Instance struct {
 	C      int      `json:"C"`
 	Cancel bool     `json:"cancel"`
 	Order  []string `json:"order"` // e.g. ["I1","A1","X","C1","I2","A2"]; X = parent cancel
+	Via    []int    `json:"via"`    // ingress ids that arrive through an attached source listener (IngressListener) instead of IngressConn
 	Settle int      `json:"settle"` // microseconds to wait after starting each op (0: none, stress)
 	Seed   int64    `json:"seed"`
 }
@@ -71,6 +72,32 @@ func (c *conn) SetDeadline(time.Time) error      { return nil }
 func (c *conn) SetReadDeadline(time.Time) error  { return nil }
 func (c *conn) SetWriteDeadline(time.Time) error { return nil }
 
+// srcListener is a channel-fed source listener attached with IngressListener.  The moment the ingress
+// goroutine takes a connection off it is that connection's IngressStart.
+type srcListener struct {
+	ch     chan *conn
+	closed chan struct{}
+	once   sync.Once
+	rec    *recorder
+	mu     sync.Mutex
+	pulled []int
+}
+
+func (s *srcListener) Accept() (net.Conn, error) {
+	select {
+	case c := <-s.ch:
+		s.mu.Lock()
+		s.pulled = append(s.pulled, c.id)
+		s.mu.Unlock()
+		s.rec.emit("IngressStart", c.id, 0, "listener")
+		return c, nil
+	case <-s.closed:
+		return nil, net.ErrClosed
+	}
+}
+func (s *srcListener) Close() error   { s.once.Do(func() { close(s.closed) }); return nil }
+func (s *srcListener) Addr() net.Addr { return addr{} }
+
 func settle(us int) {
 	if us <= 0 {
 		return
@@ -91,6 +118,18 @@ func Run(in Instance, _ int64) ([]Line, error) {
 		return nil, err
 	}
 	rec.emit("Reset", 0, 0, "")
+	via := map[int]bool{}
+	for _, v := range in.Via {
+		via[v] = true
+	}
+	var src *srcListener
+	if len(via) > 0 {
+		src = &srcListener{ch: make(chan *conn, 16), closed: make(chan struct{}), rec: rec}
+		if err := ln.IngressListener(src); err != nil {
+			return nil, err
+		}
+		defer src.Close()
+	}
 	var wg sync.WaitGroup
 	pending := sync.Map{}
 	start := func(name string, f func()) {
@@ -117,6 +156,10 @@ func Run(in Instance, _ int64) ([]Line, error) {
 		case 'I':
 			c := &conn{id: n, rec: rec}
 			id := n
+			if via[id] {
+				src.ch <- c // the connection arrives on the source listener
+				break
+			}
 			rec.emit("IngressStart", id, 0, "")
 			start(op, func() {
 				ln.IngressConn(c, nil)
@@ -169,6 +212,15 @@ func Run(in Instance, _ int64) ([]Line, error) {
 				break
 			}
 			time.Sleep(200 * time.Microsecond)
+		}
+		if src != nil {
+			// the ingress goroutine's return is not observable from outside; it has no effect on anything else,
+			// so it is placed here for every connection the goroutine took
+			src.mu.Lock()
+			for _, id := range src.pulled {
+				rec.emit("IngressEnd", id, 0, "listener")
+			}
+			src.mu.Unlock()
 		}
 		rec.emit("End", 0, 0, "")
 	case <-time.After(3 * time.Second):
